@@ -64,12 +64,12 @@ theorem text_roundtrip (p : Bytes) (hp : p.length ≤ maxLen) : fromText (toText
   rw [← hEE, b32_roundtrip]
   have hlen : (be32 (crc32 p) ++ p).length = 4 + p.length := by simp [be32_length]
   have htake : (be32 (crc32 p) ++ p).take crcLen = be32 (crc32 p) := by
-    simp [crcLen, List.take_append, be32_length]
+    simp [crcLen, Gen.principalCrcLen, List.take_append, be32_length]
   have hdrop : (be32 (crc32 p) ++ p).drop crcLen = p := by
-    simp [crcLen, List.drop_append, be32_length]
+    simp [crcLen, Gen.principalCrcLen, List.drop_append, be32_length]
   dsimp only
   rw [hlen, htake, hdrop, hlow]
-  have h1 : ¬ (4 + p.length < crcLen) := by simp [crcLen]
+  have h1 : ¬ (4 + p.length < crcLen) := by simp [crcLen, Gen.principalCrcLen]
   have h2 : ¬ (p.length > maxLen) := by omega
   rw [if_neg h1, if_neg h2]
   simp
